@@ -1,4 +1,5 @@
 """Driver side of the executor protocol: one long-lived cx-exec process per build configuration."""
+import collections
 import os
 import subprocess
 import threading
@@ -18,6 +19,7 @@ HANG_S = float(os.environ.get("VERIF_HANG_S", "150"))
 # does not: deaths that depend on what the process did before (heap layout, addresses), reproduced twice in fresh processes
 SEQ_CRASH = {}
 HISTORY_CAP = 32 << 20
+RECENT = 4096
 
 
 class Executor:
@@ -33,10 +35,12 @@ class Executor:
         self.history = []           # programs answered by the current process, oldest first
         self.history_bytes = 0
         self.last_rc = None
+        self.recent = collections.deque(maxlen=RECENT)      # the last programs answered by the current process, always kept
 
     def _start(self):
         self.history = []
         self.history_bytes = 0
+        self.recent = collections.deque(maxlen=RECENT)
         self.proc = subprocess.Popen(self.wrapper + [self.path], stdin=subprocess.PIPE, stdout=subprocess.PIPE,
                                      stderr=subprocess.DEVNULL, bufsize=1 << 16)
 
@@ -195,6 +199,7 @@ class Executor:
                 rest = "" if sp < 0 else line[sp + 1:]
                 obs = rest.split(";") if rest else []
                 results[i] = obs
+                self.recent.append(programs[i])
                 if self.history_bytes <= HISTORY_CAP:
                     self.history.append(programs[i])
                     self.history_bytes += len(programs[i]) + 64
